@@ -78,6 +78,8 @@ def run(F, rep, tier):
     import core
     import c20
     core.borrow(rep, c20.atomic, lambda o: o["rule"] == "ATOMIC" and o["key"] == "output-truncated", F)
+    # .. and is complete when the compiler says so: what a buffering writer still holds is flushed with a checked result
+    core.borrow(rep, c20.write_checked, lambda o: o["rule"] == "WRITE-CHECKED", F)
     grammar(F, rep, T)
     lvalue(F, rep, T)
     c01.irp_bracket(F, rep, T)
